@@ -906,6 +906,13 @@ pub fn all_templates(rng: &mut Rng, thorough: bool) -> Vec<Tm> {
         v.push(t_matmul_add(&[2, 4], &[4, 3], &[3], swap, false, f));
         v.push(t_matmul_add(&[2, 4], &[4, 3], &[3], swap, true, dt::INT32));
     }
+    for (bsh, bias) in [(&[4usize, 1][..], &[3i64][..]), (&[4, 3], &[3])] {
+        // RHS without a declared shape: the fusion cannot check the bias length
+        let mut t = t_matmul_add(&[2, 4], bsh, bias, false, true, f);
+        t.g.inputs[1].shape = None;
+        t.name += "/rhs-noshape";
+        v.push(t);
+    }
     // MatMulScale
     let sc = |div: bool, val: f32, rank: usize, swap: bool| Some((div, val, rank, swap));
     for rank in 0..4 {
